@@ -111,13 +111,14 @@ Definition astep_run (env : list (option approxL)) (s : astep) : res (list appro
       match all_some (map (get env) l) with Some pls => one (average_approx pls os oe on) | None => ErrEmpty end
   end.
 
-(* every step appends its objects to the environment; a failed step appends one empty slot *)
+(* every step appends its objects to the environment; a failed step appends empty slots *)
+Definition nslots (s : astep) : nat := match s with ASnap l _ _ _ => length l | _ => 1%nat end.
 Fixpoint ahist_run (env : list (option approxL)) (steps : list astep) : list (res (list approxL)) :=
   match steps with
   | [] => []
   | s :: r =>
       let o := astep_run env s in
-      o :: ahist_run (env ++ match o with Ok xs => map (fun x => Some (norm_a x)) xs | _ => [None] end) r
+      o :: ahist_run (env ++ match o with Ok xs => map (fun x => Some (norm_a x)) xs | _ => repeat None (nslots s) end) r
   end.
 
 Definition check_ahist (tol : Q) (leaves : list approxL) (steps : list astep) (impl : list (res (list approxL))) : verdict :=
